@@ -96,6 +96,10 @@ func describePanic(r any) string {
 	return fmt.Sprint(r)
 }
 
+// scriggoRunTimeout bounds one Program.Run (streams whose generated programs cannot loop for long
+// lower it: a defect that makes a program spin is then found quickly)
+var scriggoRunTimeout = 10 * time.Second
+
 // runScriggoPrograms runs every program with Scriggo; standard error (file descriptor 2, where
 // the builtin print writes) is redirected into a file for the duration.
 func runScriggoPrograms(progs []*program) ([]string, error) {
@@ -131,7 +135,7 @@ func runScriggoPrograms(progs []*program) ([]string, error) {
 				emit("=== BUILD-ERROR " + err.Error() + "\n")
 				return
 			}
-			ctx, cancel := context.WithTimeout(context.Background(), 10*time.Second)
+			ctx, cancel := context.WithTimeout(context.Background(), scriggoRunTimeout)
 			defer cancel()
 			err = prog.Run(&scriggo.RunOptions{Context: ctx})
 			switch e := err.(type) {
